@@ -247,3 +247,12 @@ package nfa
 //@   props C07
 //@   requires n != nil
 //@   ensures result == (n.startAnchored == n.startUnanchored)
+
+// streaming enumeration of the character-class searcher (C19): contract ASSUMED here; it is stated against the
+// same reference as the generic loop so that both paths of FindAllIndicesStreaming are interchangeable
+//@ trusted func (*CharClassSearcher).FindAllIndices
+//@   requires s != nil
+//@   modifies results[*]
+//@   ensures forall k :: 0 <= k && k < len(result) ==> 0 <= result[k][0] && result[k][0] <= result[k][1] && result[k][1] <= len(haystack)
+//@   ensures forall k :: 0 <= k && k + 1 < len(result) ==> result[k][1] <= result[k+1][0] && result[k][0] < result[k+1][0]
+//@   ensures (base(result) == base(results) && results != nil) || fresh(result)
